@@ -167,7 +167,10 @@ fn run_cfg_case(kind: &str, v: u64) -> (String, String) {
                 _ => match run_default(sc) {
                     Ok(()) => ok("mini C02 passed"),
                     Err(e) => {
-                        if e.contains("session-construction") || e.contains("returned Err") || e.contains("ServerSession::new") || e.contains("ClientSession::new") {
+                        // a refusal is an error that names the value as inexpressible (at construction or at
+                        // the call that first uses it); any other failure means the accepted value does not work
+                        let names_the_value = ["InvalidMaxChunkSize", "InvalidChunkSize", "NormalStringTooLong", "MessageTooLong", "EmptyObjectPropertyName"].iter().any(|k| e.contains(k));
+                        if names_the_value {
                             refused(e)
                         } else {
                             broken(e)
